@@ -91,7 +91,7 @@ ASSUMPTIONS = ["no value variables: histories are an enumerated finite family (t
                "source edits change the file size (edits within mtime granularity that keep the size are outside the claim)",
                "md5 collision-freeness for distinct checker strings", "crashes in the middle of writing a cache file are outside the claim"]
 REQUIRED_LABELS = {"tags-distinct", "right-code"}
-REQUIRED_WITNESS = {"cache-hit", "edited", "nested-import", "failed-import"}
+REQUIRED_WITNESS = {"cache-hit", "edited", "nested-import", "failed-import", "prefix-collision-5", "prefix-collision-8"}
 BUDGET_S = {"quick": 80, "thorough": 1200}
 
 
@@ -152,6 +152,21 @@ def scenario(inst, V):
         for ck in ("typeguard.typechecked", "beartype.beartype", "typeguard.typechecked ", None):
             t = _optimized_cache_from_source(Typechecker(ck).get_hash(), "/x/m.py")
             tags[repr(ck)] = t
+        # distinct checker strings whose md5 hex digests share their first 5 / 8 characters
+        # (found by a birthday search; a tag built from a truncated hash would confuse them)
+        import hashlib
+        for k, n in ((5, 6000), (8, 400000)):
+            seen = {}
+            for i in range(n):
+                name = f"mytc.checker_{i}"
+                pre = hashlib.md5(name.encode()).hexdigest()[:k]
+                if pre in seen:
+                    a, b = seen[pre], name
+                    tags[f"collide{k}:{a}"] = _optimized_cache_from_source(Typechecker(a).get_hash(), "/x/m.py")
+                    tags[f"collide{k}:{b}"] = _optimized_cache_from_source(Typechecker(b).get_hash(), "/x/m.py")
+                    V.reach(f"prefix-collision-{k}")
+                    break
+                seen[pre] = name
         own = {_PRISTINE("/x/m.py"), _PRISTINE("/x/m.py", optimization=1), _PRISTINE("/x/m.py", optimization=2)}
         vals = list(tags.values())
         V.check("tags-distinct", len(set(vals)) == len(vals) and not (set(vals) & own), tags=tags)
